@@ -72,7 +72,17 @@ package fox
 //@   modifies t.depth
 
 //@ func (roots).methodIndex props C02,C01 partial
-//@   ensures -1 <= result && result < len(r)
+//@   requires safety-verbs: len(r) >= verb
+//@   ensures range: -1 <= result && result < len(r)
+//@   ensures get: method == "GET" ==> result == 0
+//@   ensures post: method == "POST" ==> result == 1
+//@   ensures put: method == "PUT" ==> result == 2
+//@   ensures delete: method == "DELETE" ==> result == 3
+//@   ensures custom: method != "GET" && method != "POST" && method != "PUT" && method != "DELETE" && result >= 0 ==> result >= verb && r[result].key == method && forall j int :: {r[j]} verb <= j && j < result ==> r[j].key != method
+//@   ensures absent: method != "GET" && method != "POST" && method != "PUT" && method != "DELETE" && result < 0 ==> forall j int :: {r[j]} verb <= j && j < len(r) ==> r[j].key != method
+//@   loop 1: invariant -1 <= rangeindex && rangeindex < len(r) - verb
+//@   loop 1: invariant forall j int :: {r[j]} verb <= j && j <= rangeindex + verb ==> r[j].key != method
+//@   loop 1: decreases len(r) - verb - rangeindex
 
 //@ func (*tXn).addRoot props C03,C02 partial
 //@   requires t != nil
